@@ -92,6 +92,10 @@ def configs(tier):
         else:
             out.append(("core-q0", dict(c, picture_bytes=4000), False))
     for g, c in encspace.groups(tier):
+        if g == "G8" and c["mode"] == "hqll":
+            c2 = {k: v for k, v in c.items() if k != "content"}
+            if c2 not in [x[1] for x in out if x[0] == "G8-lossless"]:
+                out.append(("G8-lossless", c2, False))
         if g in ("G1", "G2", "G3", "G4"):
             if c["mode"] == "hqll":
                 out.append((g + "-lossless", c, False))
